@@ -4,6 +4,7 @@ CONSTANTS
   MaxDev = 0
   MaxFileMut = 0
   Sep = TRUE
+  FullExt = 1
   Wildcard = FALSE
 INVARIANT NeverPrints
 CHECK_DEADLOCK FALSE
